@@ -609,3 +609,4 @@ def run(ctx):
     c02.r5_label_names_injective(ctx, "C15.R7")
     r8_register_liveness(ctx)
     c05.r6_error_unwinding(ctx, "C15.R9")
+    c05.r11_resume_label_abandons_active_calls(ctx, "C15.R10")
